@@ -137,6 +137,18 @@ CHECKS.update({
         ref="4/C07"),
 })
 
+CHECKS.update({
+    "C06": dict(
+        technique="static analysis: call-graph reachability to the VM run loop (frozen roots + native table), RefCell-guard-held-across-re-entry forward dataflow, recursive SCCs with depth-guard recognition, size taint to allocation sinks with bound recognition, panic-site and divisor inventory, natural-loop progress classification in the instruction dispatch with a checked acyclicity side condition",
+        text="Decides six structural clauses of host control: which functions re-enter the VM run loop (each root a reproduced known "
+             "finding; the 60 re-entrant natives frozen), no RefCell guard across re-entry, depth guards on native recursion over "
+             "script-built structures (12 unguarded cycles reproduced as stack overflows), bounded allocation sizes (3 reproduced "
+             "aborts), reasoned panic sites and non-zero divisors, and progress of every loop in the dispatch (which found that "
+             "cyclic prototype chains hang `instanceof`; repaired together with four RefCell panics, fix: commits). Work per "
+             "native and debug-build arithmetic overflow are not decided.",
+        ref="4/C06"),
+})
+
 NOT_APPLICABLE = {
     "C04": "value equivalence with the TypeScript emit; no structural mechanism exists (DESIGN.md 4/C04)",
     "C09": "behaviour of a fixed-point loader over all graphs x schedules; structural parts are decided under C02/C19",
